@@ -211,8 +211,35 @@ func allCmds(v interface{}) bool {
 }
 
 func rtEvent(c *ctx, val M, bothB4 bool) M {
+	return rtEventPhy(c, val, valToPhy(val, bothB4))
+}
+
+// rtDerived: the frame value is not built from scratch but derived from a RECEIVED frame through the exported API
+// (an answer or a forwarded frame that re-uses the received header): decode, drop the FOpts, flip the direction-neutral
+// fields - then the usual round trip of that value.
+func rtDerived(c *ctx, val M) M {
+	phy := valToPhy(val, false)
+	b, err := phy.MarshalBinary()
+	if err != nil {
+		return rtEvent(c, val, false)
+	}
+	var rx lorawan.PHYPayload
+	if err := rx.UnmarshalBinary(b); err != nil {
+		return rtEvent(c, val, false)
+	}
+	mp, ok := rx.MACPayload.(*lorawan.MACPayload)
+	if !ok {
+		return rtEvent(c, val, false)
+	}
+	mp.FHDR.FOpts = nil
+	mp.FHDR.FCnt++
+	ev := rtEventPhy(c, phyToVal(&rx), &rx)
+	ev["derived"] = true
+	return ev
+}
+
+func rtEventPhy(c *ctx, val M, phy *lorawan.PHYPayload) M {
 	ev := M{"ev": "rt", "val": val}
-	phy := valToPhy(val, bothB4)
 	var b []byte
 	res, _ := observeFast(func() error {
 		var err error
@@ -294,12 +321,29 @@ func rtEvent(c *ctx, val M, bothB4 bool) M {
 	return ev
 }
 
+// streamPHY is ONE PHYPayload variable that every byte string of a run is also decoded into, the way a receive loop
+// re-uses its frame variable: what it re-encodes to must be the string just received, whatever it held before.
+var streamPHY lorawan.PHYPayload
+
 func bytesEvent(c *ctx, b []byte) M {
 	ev := M{"ev": "bytes", "bytes": bs(b)}
 	in := append([]byte{}, b...)
 	var p lorawan.PHYPayload
 	res, _ := observe(func() error { return p.UnmarshalBinary(in) })
 	ev["derr"] = res
+	{
+		var sre []byte
+		sres, _ := observeFast(func() error {
+			if err := streamPHY.UnmarshalBinary(append([]byte{}, b...)); err != nil {
+				return err
+			}
+			var err error
+			sre, err = streamPHY.MarshalBinary()
+			return err
+		})
+		ev["serr"] = sres
+		ev["sre"] = bs(sre)
+	}
 	ev["intact"] = string(in) == string(b)
 	// base64 path
 	var pt lorawan.PHYPayload
@@ -430,6 +474,9 @@ func drvFrame(c *ctx) error {
 				v = c.genDataFrame(invalid)
 			}
 			c.emit(rtEvent(c, v, c.rnd.Intn(4) == 0))
+			if !invalid && v["kind"] == "data" && c.rnd.Intn(6) == 0 {
+				c.emit(rtDerived(c, v))
+			}
 		}
 	case "cases":
 		for _, cs := range c.cases {
